@@ -4,6 +4,11 @@ package c12
 
 import (
 	"context"
+	"crypto"
+	"crypto/ecdsa"
+	"crypto/elliptic"
+	crand "crypto/rand"
+	"crypto/rsa"
 	"fmt"
 	"net"
 	"strings"
@@ -240,4 +245,73 @@ func answerThenHangUp(c *core.Ctx, r *core.Rand, i int) {
 		}
 	}
 	c.Distinct(core.Hash64("hang-up", fmt.Sprint(i%9)))
+}
+
+var (
+	signKeysOnce sync.Once
+	signRSA      *rsa.PrivateKey
+	signEC       *ecdsa.PrivateKey
+)
+
+// signerSignCase: Client.Signer followed by Sign against a server whose answers are well-formed but do not fit
+// together: the attributes name one algorithm, the key material is of another kind, the signature has any length.
+// Signer and Sign return a value or an error; they never panic.
+func signerSignCase(c *core.Ctx, r *core.Rand, i int) {
+	signKeysOnce.Do(func() {
+		signRSA, _ = rsa.GenerateKey(crand.Reader, 1024)
+		signEC, _ = ecdsa.GenerateKey(elliptic.P256(), crand.Reader)
+	})
+	algAttr := []kmip.CryptographicAlgorithm{kmip.CryptographicAlgorithmRSA, kmip.CryptographicAlgorithmECDSA, kmip.CryptographicAlgorithmEC}[i%3]
+	material := []string{"rsa", "ec"}[(i/3)%2]
+	sigLen := []int{0, 1, 63, 64, 65, 70, 72, 128, 256}[(i/6)%9]
+	var pubObj kmip.Object
+	srv := script.NewServer(func(rx script.Received, _ *memnet.Conn) *kmip.ResponseMessage {
+		op := rx.Msg.BatchItem[0].Operation
+		return script.OK(rx.Msg, func(int, *kmip.RequestBatchItem) kmip.OperationPayload {
+			switch op {
+			case kmip.OperationGetAttributes:
+				id := rx.Msg.BatchItem[0].RequestPayload.(*payloads.GetAttributesRequestPayload).UniqueIdentifier
+				ot := kmip.ObjectTypePrivateKey
+				if id == "pub" {
+					ot = kmip.ObjectTypePublicKey
+				}
+				return &payloads.GetAttributesResponsePayload{UniqueIdentifier: id, Attribute: []kmip.Attribute{
+					{AttributeName: kmip.AttributeNameObjectType, AttributeValue: ot},
+					{AttributeName: kmip.AttributeNameCryptographicAlgorithm, AttributeValue: algAttr},
+					{AttributeName: kmip.AttributeNameCryptographicUsageMask, AttributeValue: kmip.CryptographicUsageSign | kmip.CryptographicUsageVerify},
+				}}
+			case kmip.OperationGet:
+				return &payloads.GetResponsePayload{ObjectType: kmip.ObjectTypePublicKey, UniqueIdentifier: "pub", Object: pubObj}
+			case kmip.OperationSign:
+				return &payloads.SignResponsePayload{UniqueIdentifier: "priv", SignatureData: r.Bytes(sigLen)}
+			}
+			return &payloads.ActivateResponsePayload{UniqueIdentifier: "x"}
+		})
+	})
+	defer srv.Close()
+	cl, err := newClient(srv)
+	if err != nil {
+		panic(err)
+	}
+	defer cl.Close()
+	usage := kmip.CryptographicUsageVerify
+	if material == "rsa" {
+		pubObj = cl.Register().RsaPublicKey(&signRSA.PublicKey, usage).RequestPayload().Object
+	} else {
+		pubObj = cl.Register().EcdsaPublicKey(&signEC.PublicKey, usage).RequestPayload().Object
+	}
+	label := fmt.Sprintf("attributes say algorithm %#x, key material is %s, signature of %d bytes", uint32(algAttr), material, sigLen)
+	c.Count("signer_sign_calls", 1)
+	c.Distinct(core.Hash64("signer-sign", label))
+	if p, pv, st := core.Guard(func() {
+		sg, err := cl.Signer(context.Background(), "priv", "pub")
+		if err != nil || sg == nil {
+			return
+		}
+		digest := make([]byte, 32)
+		sg.Sign(crand.Reader, digest, crypto.SHA256)
+		sg.Sign(crand.Reader, digest, &rsa.PSSOptions{SaltLength: rsa.PSSSaltLengthEqualsHash, Hash: crypto.SHA256})
+	}); p {
+		c.Violation(core.PanicSig(pv, st), fmt.Sprintf("Signer / Sign panicked (%s): %v", label, pv), map[string]any{"stack": st})
+	}
 }
